@@ -33,7 +33,9 @@ EXTENDS Naturals, FiniteSets, TLC
 
 CONSTANTS Writers, NWrites, Trigger, Slowdown, Stop,
           Bug_NoRescheduleForLevel0, Bug_FlushDoesNotWake, Bug_RotateDoesNotSchedule,
-          Bug_StopBelowTrigger
+          Bug_StopBelowTrigger,
+          Bug_EmptyMemtableFull   \* a memtable limit below the footprint of an EMPTY memtable: the fresh
+                                  \* memtable of a rotation counts as full at once (raindb before b5a962e)
 
 BG == "bg"
 None == "none"
@@ -73,7 +75,7 @@ WRoom(w) ==
      THEN /\ waiting' = waiting \cup {w} /\ lock' = None /\ Goto(w, "parked")
           /\ UNCHANGED <<left, delayOK, memFull, imm, bgSched, chan>>
      ELSE \* rotate
-          /\ imm' = TRUE /\ memFull' = FALSE
+          /\ imm' = TRUE /\ memFull' = Bug_EmptyMemtableFull
           /\ IF ~bgSched /\ ~Bug_RotateDoesNotSchedule
              THEN bgSched' = TRUE /\ chan' = chan + 1 ELSE UNCHANGED <<bgSched, chan>>
           /\ UNCHANGED <<lock, pc, left, delayOK, waiting>>
